@@ -77,7 +77,8 @@ def _constants_of(cfg):
 # ----------------------------------------------------------------------------------------------- model checking
 
 def model_check(ctx, prop):
-    cfgs = ["SnapSeq_mc_quick.cfg"] if ctx.quick else ["SnapSeq_mc_thorough.cfg"]
+    # the quick config always runs with -coverage 1 (vacuity guard, per-action counts); the big one without (2x cost)
+    cfgs = ["SnapSeq_mc_quick.cfg"] if ctx.quick else ["SnapSeq_mc_quick.cfg", "SnapSeq_mc_thorough.cfg"]
     if prop == "C12":
         cfgs.append(ctx.pick("SnapSeq_mc_kernel_quick.cfg", "SnapSeq_mc_kernel.cfg"))     # boot.InUse answers
     total = {"states": 0, "transitions": 0, "coverage": {}, "constants": {}, "wall": 0.0, "depth": 0}
@@ -203,7 +204,7 @@ def _run_harness(ctx, tb, env, what):
 
 
 def record(ctx, tb):
-    return _run_harness(ctx, tb, {"VERIF_N": ctx.pick(30, 800), "VERIF_ENUM": ctx.pick(3, 50),
+    return _run_harness(ctx, tb, {"VERIF_N": ctx.pick(30, 400), "VERIF_ENUM": ctx.pick(3, 25),
                                   "VERIF_LEN": ctx.pick(4, 6)}, "random")
 
 
